@@ -197,6 +197,36 @@ pub fn builds(run: &Run) -> Vec<Build> {
             v
         })
         .collect();
+    // large sets: all iteration orders cannot be enumerated (n!), so each is built under the first
+    // BIG_KEYS keys and in two insertion orders; sizes straddle hashbrown's growth steps
+    // (3/4, 7/8, 14/15, 28/29 elements) so that differently grown tables are compared too
+    let big_keys: u64 = tier.pick(6, 16);
+    run.bound("large_set_sizes", json!([5, 8, 9, 15, 16, 29, 33]));
+    run.bound("large_set_keys_each", json!(big_keys));
+    let mut big: Vec<(R, Vec<u64>)> = vec![];
+    for &tag in &[Tag::SetExt, Tag::Conj, Tag::IntExt] {
+        for n in [5usize, 8, 9, 15, 16, 29, 33] {
+            let elems: Vec<R> = (0..n).map(|i| R::word(&format!("w{i}"))).collect();
+            let rev: Vec<R> = elems.iter().rev().cloned().collect();
+            for k in 0..big_keys {
+                big.push((R::node(tag, elems.clone()), vec![k]));
+                big.push((R::node(tag, rev.clone()), vec![k]));
+                if n == 9 || n == 16 {
+                    // nested: the large set as an element of a small set and of a symmetric statement
+                    big.push((R::node(Tag::SetInt, vec![R::node(tag, elems.clone()), R::word("x")]), vec![k, 0]));
+                    big.push((R::node(Tag::SetInt, vec![R::word("x"), R::node(tag, rev.clone())]), vec![k + 1, 1]));
+                    big.push((R::pair(Tag::Sim, R::node(tag, elems.clone()), R::word("x")), vec![k]));
+                    big.push((R::pair(Tag::Sim, R::word("x"), R::node(tag, rev.clone())), vec![k + 2]));
+                }
+            }
+        }
+    }
+    run.count("large_set_builds", big.len() as u64);
+    for (r, script) in big {
+        let (t, _) = narsese::verif_hooks::with_seed_script(&script, || r.build());
+        let raw = R::of_term(&t);
+        all.push(Build { origin: Origin::Recipe(r), script, canon: raw.canon(), raw, term: t, class: 0 });
+    }
     let f = fmts::ascii();
     for s in parse_texts() {
         let make = || f.e.parse::<Narsese>(s).expect("family text must parse").try_into_term().expect("term");
@@ -225,6 +255,8 @@ pub fn builds(run: &Run) -> Vec<Build> {
             *per_recipe.entry(r.show()).or_insert(0) += 1;
         }
     }
+    let distinct_big_orders: std::collections::HashSet<&R> = all.iter().filter(|b| b.raw.size() > 5 && matches!(&b.origin, Origin::Recipe(r) if r.kids.len() >= 5 || r.kids.iter().any(|k| k.kids.len() >= 5))).map(|b| &b.raw).collect();
+    run.count("large_set_distinct_iteration_orders_realised", distinct_big_orders.len() as u64);
     let mut gaps = 0u64;
     for r in &fam {
         let e = expected_orders(r);
